@@ -1117,7 +1117,7 @@ def hp2dms(hp):
     :return: Degrees, Minutes, Seconds Object
     :rtype: DMSAngle
     """
-    degmin, second = divmod(abs(hp) * 1000, 10)
+    degmin, second = divmod(round(abs(hp) * 1000, 10), 10)
     degree, minute = divmod(degmin, 100)
     return (DMSAngle(degree, minute, second * 10, positive=True) if hp >= 0
             else DMSAngle(degree, minute, second * 10, positive=False))
@@ -1131,7 +1131,7 @@ def hp2ddm(hp):
     :return: Degrees, Decimal Minutes Object
     :rtype: DDMAngle
     """
-    degmin, second = divmod(abs(hp) * 1000, 10)
+    degmin, second = divmod(round(abs(hp) * 1000, 10), 10)
     degree, minute = divmod(degmin, 100)
     minute = minute + (second / 6)
     return DDMAngle(degree, minute, positive=True) if hp >= 0 else DDMAngle(degree, minute, positive=False)
@@ -1239,7 +1239,7 @@ def dec2hp_v(dec):
 
 
 def hp2dec_v(hp):
-    degmin, second = divmod(abs(hp) * 1000, 10)
+    degmin, second = divmod((abs(hp) * 1000).round(10), 10)
     degree, minute = divmod(degmin, 100)
     dec = degree + (minute / 60) + (second / 360)
     dec[hp <= 0] = -dec[hp <= 0]
